@@ -399,7 +399,7 @@ pub fn check(ctx: &mut Ctx) {
         "entity names are never equal to a public-suffix label and hostname locations always contain a dot unless they are the page's public suffix (the two namespaces share hash bins in the implementation; coinciding spellings are outside the property)".into(),
         "registrable domain / public suffix of page hosts are known by construction".into(),
     ];
-    let n = ctx.tier.pick(60_000, 2_500_000);
+    let n = ctx.tier.pick(600_000, 5_000_000);
     drive(ctx, "sites", n, 400, &decode, &check_case);
 }
 
